@@ -384,3 +384,52 @@ def _lookup(ct, tier, seed):
 
 contract('C18.lookup', [MT + ':Material._find_material_matches', MT + ':Material._levenshtein_distance', MT + ':Material._retrieve_file'],
          ['C18'], custom=_lookup)(lambda c: None)
+
+
+def _model_glass(ct, tier, seed):
+    """bounded: AbbeMaterial(n_d, V_d) reproduces n_d at the d line and V_d = (n_d - 1)/(n_F - n_C) of its own dispersion to within the
+    accuracy of the fit (|dn| <= 2e-3, |dV|/V <= 15 %: measured worst cases on Schott glasses are 5e-4 and 9 %)"""
+    import time
+    import warnings
+    import numpy as np
+    from optiland.materials import AbbeMaterial, Material
+    from optiland.materials.base import BaseMaterial
+    warnings.simplefilter('ignore')
+    t0 = time.time()
+    clauses, fails, cases = {}, [], 0
+
+    def note(cid, ok, detail, inputs):
+        c_ = clauses.setdefault(cid, {'paths': 0, 'proved': 0, 'backends': {}, 'failed': [], 'seconds': 0.0, 'bounded': True})
+        c_['paths'] += 1
+        if ok:
+            c_['proved'] += 1
+            c_['backends']['runtime'] = c_['backends'].get('runtime', 0) + 1
+        else:
+            fails.append({'clause': cid, 'draws': inputs, 'note': detail})
+    names = ['N-BK7', 'N-SF11', 'F2', 'N-SK16', 'N-LAK9', 'N-FK51A', 'N-BAF10', 'N-SF5', 'N-KZFS4', 'N-LASF9', 'N-PSK53A', 'N-BAK4', 'SF10', 'N-LAK22']
+    for nm in (names if tier == 'thorough' else names[:8]):
+        try:
+            m = Material(nm)
+            nd, V = float(m.n(0.5875618)), float(BaseMaterial.abbe(m))
+        except Exception:
+            continue
+        if not (1.4 < nd < 2.0 and 15 < V < 95):
+            continue
+        a = AbbeMaterial(nd, V)
+        inputs = {'glass': nm, 'nd': nd, 'Vd': V}
+        cases += 1
+        dn = float(a.n(0.5875618)) - nd
+        dV = float(BaseMaterial.abbe(a)) - V
+        note('C18.model_glass.reproduces_the_d_line_index', abs(dn) <= 2e-3, 'dn = %.2e' % dn, inputs)
+        note('C18.model_glass.reproduces_the_abbe_number', abs(dV) <= 0.15 * V, 'dV = %.3f of %.2f' % (dV, V), inputs)
+        note('C18.model_glass.extinction_is_zero', a.k(0.55) == 0, '', inputs)
+        ws = np.array([0.45, 0.55, 0.65])
+        note('C18.model_glass.scalar_and_array_arguments_agree', bool(np.allclose([float(a.n(float(w))) for w in ws], a.n(ws), rtol=1e-13, atol=0)), '', inputs)
+    return {'contract': ct.name, 'functions': ct.functions, 'props': ct.props,
+            'symbolic': {'clauses': clauses, 'paths': 0, 'errors': [], 'solver_s': 0.0, 'samples': [], 'wd_assumed': [], 'assumed': []},
+            'numeric': {'accepted': cases, 'rejected': 0, 'failures': fails[:10], 'concolic_agree': 0, 'encoder_mismatches': [],
+                        'samples': [{'glasses': names[:8]}]}, 'wall_s': time.time() - t0}
+
+
+contract('C18.model_glass', ['optiland/materials/abbe.py:AbbeMaterial.n', 'optiland/materials/abbe.py:AbbeMaterial._get_coefficients',
+                             'optiland/materials/abbe.py:AbbeMaterial.k'], ['C18'], custom=_model_glass)(lambda c: None)
